@@ -199,6 +199,8 @@ func Run(c *lib.Ctx) {
 		"each store method is one atomic step (it holds the store's write lock throughout)",
 	}
 	c.Trusted = []string{"google/btree (modelled as a sorted association list)", "types.Map internals (C15)", "slices.SortFunc (any permutation that sorts; the model sorts stably)"}
+	sg.SelfCheck(c, &fails) // the reference's own order / equality against the value layer's, once per run
+	c.Assumptions = append(c.Assumptions, sg.Independence)
 	ms, err := c.RunModel("c10", sc)
 	if err != nil {
 		c.Violation("model driver failed: "+err.Error(), "", false)
